@@ -37,7 +37,7 @@ def ann_json(t, path=''):
     if t[0] == 'or':
         e = {'prim': 'or', 'args': [ann_json(t[2], path + 'l'), ann_json(t[3], path + 'r')]}
     else:
-        e = {'prim': t[2]}
+        e = terms.type_json(LEAF_T[t[2]]) if t[2] in LEAF_T else {'prim': t[2]}
     if t[1]:
         e['annots'] = ['%' + t[1]]
     elif TYPE_ANNOTS[0] == 'bare':
@@ -48,9 +48,12 @@ def ann_json(t, path=''):
     return e
 
 
+LEAF_T = {'bigmap': ('big_map', ('int',), ('string',))}
+
+
 def plain(t):
     """annotated model type -> annotation-free MichSem type"""
-    return ('or', plain(t[2]), plain(t[3])) if t[0] == 'or' else (t[2],)
+    return ('or', plain(t[2]), plain(t[3])) if t[0] == 'or' else LEAF_T.get(t[2], (t[2],))
 
 
 def annotated(t):
@@ -61,6 +64,8 @@ def michelson(t):
     a = ' %' + t[1] if t[1] else ''
     if t[0] == 'or':
         return '(or%s %s %s)' % (a, michelson(t[2]), michelson(t[3]))
+    if t[2] == 'bigmap':
+        return '(big_map%s int string)' % a
     return '(%s%s)' % (t[2], a) if a else t[2]
 
 
@@ -246,7 +251,26 @@ def check_split(ctx, tc, v, best):
         ctx.mismatch('C13:value-roundtrip:%s:wrong-value%s' % (vc, coll), 'parameter %s, value %s: to_parameters gave %s, from_parameters of that gave %s' % (
             michelson(T), v, params, back), case)
         return False
-    # the pair is the caller's: converting the very same object once more must give the same value again (whatever the first conversion did to it)
+    # the other rendering modes: the full value and the pair come out in that mode throughout (below union nodes too), and the pair still builds the value
+    for mode in ('optimized', 'legacy_optimized'):
+        try:
+            full_m = obj.to_micheline_value(mode=mode)
+            pm = obj.to_parameters(mode=mode)
+            e_m = tc.model_name(pm['entrypoint'])
+            want_full = terms.value_json(pt, v, mode)
+            ok_m = full_m == want_full and e_m in tc.etype
+            if ok_m:
+                a_m = [a for (e2, a), f in tc.join.items() if e2 == e_m and f == v]
+                ok_m = any(pm['value'] == terms.value_json(plain(tc.etype[e_m]), a, mode) for a in a_m)
+            if ok_m:
+                ok_m = tc.cls.from_parameters(pm).to_micheline_value(mode=mode) == want_full
+            detail = 'full value %s, pair %s' % (json.dumps(full_m), json.dumps(pm))
+        except Exception as e:   # noqa
+            ok_m, detail = False, 'raised %r' % e
+        if not ok_m:
+            ctx.mismatch('C13:mode:%s:%s' % (mode, vc), 'parameter %s, value %s in mode %s: %s; expected the full value %s and a pair denoting it in the same mode' % (
+                michelson(T), v, mode, detail, json.dumps(terms.value_json(pt, v, mode))), case)
+            return False
     try:
         again = terms.pval(pt, tc.cls.from_parameters(params).to_micheline_value())
     except Exception as e:   # noqa
@@ -292,9 +316,9 @@ def check_join(ctx, tc, e, a, full, best):
     return True
 
 
-def run_family(ctx, name, depth, names, rots, timeout, type_annots=False):
+def run_family(ctx, name, depth, names, rots, timeout, type_annots=False, bases=BASES):
     TYPE_ANNOTS[0] = type_annots
-    gen = {'MichEntryMC': MC % to_tla(BASES)}
+    gen = {'MichEntryMC': MC % to_tla(bases)}
     cfg = CFG % (depth, ', '.join('"%s"' % n for n in names), ', '.join(map(str, rots)))
     cov = depth <= 1      # action coverage (vacuity) on the small family only: -coverage is slow on the big ones
     r = ctx.tlc('MichEntryMC', cfg, name=name, gen=gen, timeout=timeout, coverage=cov)
@@ -359,11 +383,13 @@ def run(ctx):
         n += run_family(ctx, 'ME_d2', 2, ['a', 'b', 'default'], [0], 600)
         n += run_family(ctx, 'ME_d1_root', 1, ['a', 'default', 'root'], [1], 600, type_annots=True)
         n += run_family(ctx, 'ME_d2_bare', 2, ['a', 'b'], [0], 600, type_annots='bare')
+        n += run_family(ctx, 'ME_d2_modes', 2, ['a', 'b'], [0, 1], 600, bases=('address', 'bigmap', 'int'))
     else:
         n += run_family(ctx, 'ME_d2_bare', 2, ['a', 'b', 'default'], [0, 1], 1500, type_annots='bare')
         n += run_family(ctx, 'ME_d2', 2, ['a', 'b', 'default', 'root'], [0, 1, 2], 1500)
         n += run_family(ctx, 'ME_d3_ad', 3, ['a', 'default'], [0], 1500)
         n += run_family(ctx, 'ME_d3_ab', 3, ['a', 'b'], [1], 1500, type_annots=True)
+        n += run_family(ctx, 'ME_d2_modes', 2, ['a', 'b', 'default'], [0, 1, 2], 1500, bases=('address', 'bigmap', 'int'))
     ctx.extra['types'] = n
     duplicate_names(ctx)
     ctx.exhaustive = True
